@@ -263,6 +263,26 @@ pub fn run(ctx: &Ctx) {
             p.cfg = Cfg { xs: i % 2 == 0, os: true, compress: true, ver: "1.5".into() };
             emit(&mut out, &p, "gen");
         }
+        // object-stream documents with a second (> 100 compressible objects) and a third (> 200) object stream
+        let many: &[(usize, bool)] = if ctx.thorough() { &[(98, true), (131, false), (215, true), (320, false)] } else { &[(101 + (ctx.seed % 30) as usize, false), (203 + (ctx.seed % 30) as usize, true)] };
+        for (n, xs) in many {
+            let p = gen_many_pages(&mut r, *n, Cfg { xs: *xs, os: true, compress: true, ver: "1.5".into() });
+            emit(&mut out, &p, "many");
+        }
+        // every boundary value of the coordinate catalogue in every operand slot of m l c re cm Td
+        for (k, e) in EDGE.iter().enumerate() {
+            let o = EDGE[(k + 7) % EDGE.len()];
+            let calls = vec![
+                Call::Fill(Col(vec![0])), Call::Stroke(Col(vec![0])),
+                Call::M(*e, o), Call::L(o, *e), Call::C([*e, o, o, *e, *e, *e]), Call::Re([*e, o, *e, o]), Call::S,
+                Call::Save, Call::Cm([*e, o, o, *e, *e, o]), Call::Re([o, *e, o, *e]), Call::F, Call::Restore,
+                Call::Text { font: k % 14, size: 12_000, x: *e, y: o, s: "edge".into(), col: Col(vec![0]) },
+                Call::Text { font: (k + 3) % 14, size: 9_500, x: o, y: *e, s: "edge".into(), col: Col(vec![500]) },
+            ];
+            let p = Prog { cfg: gen_cfg(&mut r, k as u64), title: None, author: None, subject: None, outline: vec![],
+                           pages: vec![PageP { w: 595_000, h: 842_000, rot: 0, calls, annots: vec![] }] };
+            emit(&mut out, &p, "edge");
+        }
     }
     out.finish("doc");
 }
